@@ -29,7 +29,7 @@
     [Example]s at the end run a class program through both. *)
 From Coq Require Import List String Bool ZArith.
 From MambaModel Require Import model.Core model.SemDom model.Convert model.PySem model.PyEval model.MEval.
-From MambaModel Require Import proofs.PySemProps proofs.MEvalProps proofs.ExprSim.
+From MambaModel Require Import proofs.PySemProps proofs.MEvalProps proofs.ExprSim proofs.StmtSim.
 Import ListNotations.
 
 Definition C01_statement : Prop :=
@@ -176,6 +176,31 @@ Theorem C01_pure_expressions_convert :
   forall a st i, pure a = true -> plain st -> exists c, conv a st i = Some (c, i).
 Proof. exact pure_expr_converts. Qed.
 
+(** Simple statements (definitions [def x := e], assignments [x := e], compound assignments [x op= e] for every
+    operator of the table, [pass], blocks, [if] / [if-else] in statement position, nested to any depth; targets
+    are identifiers that need no renaming, right-hand sides and conditions are pure expressions):
+    for EVERY such statement tree and every conversion state without pending return/assignment flags outside
+    a parameter list, whatever [conv] emits runs in the model of Python's statement semantics to a normal end
+    exactly when the reference semantics ends normally, raises exactly the exception the reference semantics
+    raises, and in both cases the final environments agree again on every variable, on the printed output and
+    on the [bad] flag - from every pair of environments that agree in this way, for every statement fuel at
+    least as large and every expression fuel at least twice as large.  ([SRel] claims nothing when the
+    reference semantics is itself undefined: unsupported value shapes, out of fuel.)  Loops, calls, returns,
+    tuple targets, fields and definitions are outside this theorem; they are covered by the parametric
+    theorems above and by the three-way oracle. *)
+Theorem C01_simple_statements_partial :
+  forall a st i c i',
+    simple a = true -> plain_stmt st -> conv a st i = Some (c, i') ->
+    forall f fs fe em ep, f <= fs -> 2 * f <= fe -> srel em ep ->
+      SRel (mev f a em) (pexec (cexpr fe) fs c ep).
+Proof. exact simple_stmt_correct. Qed.
+Check C01_simple_statements_partial :
+  forall a st i c i',
+    simple a = true -> plain_stmt st -> conv a st i = Some (c, i') ->
+    forall f fs fe em ep, f <= fs -> 2 * f <= fe -> srel em ep ->
+      SRel (mev f a em) (pexec (cexpr fe) fs c ep).
+
+Print Assumptions C01_simple_statements_partial.
 Print Assumptions C01_pure_expressions_partial.
 Print Assumptions C01_pure_expressions_convert.
 Print Assumptions C01_implicit_return_partial.
